@@ -491,7 +491,9 @@ class Unit:
         )
 
     def copy(self, *, deep=False):
-        expr = str(self.expr)
+        # the expression object itself (immutable), not its text: text plus
+        # explicit values would be memoised under that text in the registry
+        expr = self.expr
         base_value = copy.deepcopy(self.base_value)
         base_offset = copy.deepcopy(self.base_offset)
         # sympy expressions are immutable; a deep copy would not be identical
